@@ -199,7 +199,7 @@ CHECKS = {
         "assumptions": ["missing names and out-of-range indices select nothing"],
     },
     "C19": {
-        "pkg": "c19", "variants": [PLAIN],
+        "pkg": "c19", "variants": [PLAIN], "shards": {"quick": 16, "thorough": 64},
         "rule": ("rapid draws a struct type (reflect.StructOf, 1-5 fields per level, depth <= 3; field kinds int, string, *int, pointer-receiver marshaler, context-aware marshaler, struct, *struct, []struct, [2]struct, "
                  "map[string]struct, interface{} holding a struct), 1-5 queries over its field tree (subsets per level, sub-queries, duplicated and non-existent names) and a history of 2-12 encodings that interleaves the "
                  "queries and the unfiltered encoding (every third query is rebuilt from its own QueryString and compared structurally). Oracle: reference projection of Marshal's own output (ordered AST) by a walk over "
